@@ -148,12 +148,7 @@ func New(config ...Config) fiber.Handler {
 						storedBytes -= size
 					}
 				}
-			} else if e.exp != 0 && !hasRequestDirective(c, noCache) {
-				// Separate body value to avoid msgp serialization
-				// We can store raw bytes with Storage 👍
-				if cfg.Storage != nil {
-					e.body = manager.getRaw(key + "_body")
-				}
+			} else if e.exp != 0 && !hasRequestDirective(c, noCache) && manager.loadBody(key, e) {
 				// Set response headers from cache
 				c.Response().SetBodyRaw(e.body)
 				c.Response().SetStatusCode(e.status)
